@@ -12,6 +12,8 @@ def s0 : State :=
 def wUpd : WS := { stores := [{ store := 0, updated := [(1, 1)], items := 1, delta := 1 }] }
 /-- a transaction that splits: updates node 1 and adds node 2 -/
 def wSplit : WS := { stores := [{ store := 0, updated := [(1, 1)], added := [2], items := 0, delta := 1 }] }
+/-- a transaction whose removal empties node 1: the node is removed -/
+def wRem : WS := { stores := [{ store := 0, removed := [(1, 1)], items := 1, delta := -1 }] }
 /-- first item of an empty store: new root 3 -/
 def sEmpty : State := { ({} : State) with storeExists := fun k => k = 0 }
 def wRoot : WS := { stores := [{ store := 0, root := [3], items := 0, delta := 1 }] }
